@@ -176,7 +176,7 @@ theorem closeTrace_fire (st : State) (s : Nat) (ev : Ev) (src : Option Nat) (t :
     by_cases h1 : s = t <;> by_cases h2 : ev.isClose = true <;> simp [h1, h2]
   · rw [closeTrace_of_trace_append st _ _ h]
     have he : Ev.isClose .error = false := rfl
-    by_cases h1 : s = t <;> by_cases h2 : ev.isClose = true <;> simp [h1, h2, he, List.filter_cons]
+    by_cases h1 : s = t <;> by_cases h2 : ev.isClose = true <;> simp [h1, h2, he]
 
 theorem closeTrace_fire_ne (st : State) {s t : Nat} (ev : Ev) (src : Option Nat) (h : s ≠ t) :
     (st.fire s ev src).closeTrace t = st.closeTrace t := by
